@@ -682,8 +682,29 @@ fn is_encode_overflow_panic(p: &PanicInfo) -> bool {
     p.loc.contains("gds21/src/data.rs") && p.msg.contains("overflow")
 }
 
-/// Judge one stream. `must_err`: it is a strict prefix of a valid stream ending before the end of ENDLIB.
-pub fn judge(key: &str, bytes: &[u8], must_err: bool, desc: &dyn Fn() -> String, cx: &mut Cx) {
+/// Following the length fields from byte 0, is a complete ENDLIB record ever reached? (If not, the stream
+/// "ends before its end-of-library record" whatever else it contains.)
+pub fn framing_reaches_endlib(b: &[u8]) -> bool {
+    let mut pos = 0usize;
+    while pos + 4 <= b.len() {
+        let len = ((b[pos] as usize) << 8) | b[pos + 1] as usize;
+        if len < 4 || pos + len > b.len() {
+            return false;
+        }
+        if b[pos + 2] == rt::ENDLIB {
+            return true;
+        }
+        pos += len;
+    }
+    false
+}
+
+/// Judge one stream.
+pub fn judge(key: &str, bytes: &[u8], desc: &dyn Fn() -> String, cx: &mut Cx) {
+    let must_err = !framing_reaches_endlib(bytes);
+    if must_err {
+        cx.tag("class:no-endlib-reachable");
+    }
     let detail = || json!({"input": desc(), "stream": render_bytes(bytes, 1200)});
     let r = guard(|| GdsLibrary::from_bytes(bytes));
     let lib = match r {
@@ -701,7 +722,7 @@ pub fn judge(key: &str, bytes: &[u8], must_err: bool, desc: &dyn Fn() -> String,
     };
     if must_err {
         cx.outcome("truncated-accepted");
-        cx.fail(key, "truncated-accepted", None, || format!("a stream that ends before its ENDLIB record was accepted [{}]", desc()), detail);
+        cx.fail(key, "truncated-accepted", None, || format!("accepted a stream in which no complete ENDLIB record is reachable by following the record lengths (it ends before its end-of-library record) [{}]", desc()), detail);
         return;
     }
     let (tiny, top) = real_classes(bytes);
@@ -753,7 +774,8 @@ pub fn judge(key: &str, bytes: &[u8], must_err: bool, desc: &dyn Fn() -> String,
 
 pub struct Built {
     pub bytes: Vec<u8>,
-    pub must_err: bool,
+    /// a strict prefix of a base the reference decoder accepts, ending before the end of its ENDLIB
+    pub strict_prefix_of_valid: bool,
     pub desc: String,
 }
 
@@ -844,21 +866,21 @@ pub fn build(key: &str, seed: u64) -> Option<Built> {
         "t" => {
             let b = &bases()[base_idx(parts[1])];
             let n = num(2);
-            Some(Built { bytes: b.bytes[..n].to_vec(), must_err: b.valid_len.map_or(false, |v| n < v), desc: format!("first {n} of {} bytes of base {}", b.bytes.len(), b.name) })
+            Some(Built { bytes: b.bytes[..n].to_vec(), strict_prefix_of_valid: b.valid_len.map_or(false, |v| n < v), desc: format!("first {n} of {} bytes of base {}", b.bytes.len(), b.name) })
         }
         "f" => {
             let b = &bases()[base_idx(parts[1])];
             let (pos, fid) = (num(2), num(3));
             let f = &fault_table()[fid];
             let bytes = apply_one(b, pos, f)?;
-            Some(Built { bytes, must_err: false, desc: format!("base {} record #{pos} ({}): fault {f:?}", b.name, gs::rname(b.recs[pos].rtype)) })
+            Some(Built { bytes, strict_prefix_of_valid: false, desc: format!("base {} record #{pos} ({}): fault {f:?}", b.name, gs::rname(b.recs[pos].rtype)) })
         }
         "p" => {
             let b = &bases()[base_idx(parts[1])];
             let (i, fi, j, fj) = (num(2), num(3), num(4), num(5));
             let (f, g) = (&pair_faults()[fi], &pair_faults()[fj]);
             let bytes = apply_two(b, i, f, j, g)?;
-            Some(Built { bytes, must_err: false, desc: format!("base {} record #{i} ({}): {f:?} and record #{j} ({}): {g:?}", b.name, gs::rname(b.recs[i].rtype), gs::rname(b.recs[j].rtype)) })
+            Some(Built { bytes, strict_prefix_of_valid: false, desc: format!("base {} record #{i} ({}): {f:?} and record #{j} ({}): {g:?}", b.name, gs::rname(b.recs[i].rtype), gs::rname(b.recs[j].rtype)) })
         }
         "s" => {
             let ctx = contexts().iter().find(|c| c.name == parts[1])?;
@@ -867,7 +889,7 @@ pub fn build(key: &str, seed: u64) -> Option<Built> {
             let a = alphabet(full);
             let seq: Vec<usize> = if parts[4].is_empty() { vec![] } else { parts[4].split('.').map(|x| x.parse().unwrap()).collect() };
             let names: Vec<String> = seq.iter().map(|i| format!("{}[{}B]", gs::rname(a[*i].rtype), a[*i].payload.len())).collect();
-            Some(Built { bytes: seq_bytes(ctx, a, &seq, tail), must_err: false, desc: format!("context {} + records {:?} + {}", ctx.name, names, if tail == 1 { "natural completion" } else { "end of input" }) })
+            Some(Built { bytes: seq_bytes(ctx, a, &seq, tail), strict_prefix_of_valid: false, desc: format!("context {} + records {:?} + {}", ctx.name, names, if tail == 1 { "natural completion" } else { "end of input" }) })
         }
         "hl" => {
             let b = hl_base();
@@ -876,7 +898,7 @@ pub fn build(key: &str, seed: u64) -> Option<Built> {
             let mut bytes = b.bytes.clone();
             bytes[b.offs[pos]] = (val >> 8) as u8;
             bytes[b.offs[pos] + 1] = val as u8;
-            Some(Built { bytes, must_err: false, desc: format!("base {} record #{pos} ({}): length field := {val}", b.name, gs::rname(b.recs[pos].rtype)) })
+            Some(Built { bytes, strict_prefix_of_valid: false, desc: format!("base {} record #{pos} ({}): length field := {val}", b.name, gs::rname(b.recs[pos].rtype)) })
         }
         "ht" => {
             let b = hl_base();
@@ -885,11 +907,11 @@ pub fn build(key: &str, seed: u64) -> Option<Built> {
             let mut bytes = b.bytes.clone();
             bytes[b.offs[pos] + 2] = t as u8;
             bytes[b.offs[pos] + 3] = d as u8;
-            Some(Built { bytes, must_err: false, desc: format!("base {} record #{pos} ({}): record type := {t:#04x}, data type := {d}", b.name, gs::rname(b.recs[pos].rtype)) })
+            Some(Built { bytes, strict_prefix_of_valid: false, desc: format!("base {} record #{pos} ({}): record type := {t:#04x}, data type := {d}", b.name, gs::rname(b.recs[pos].rtype)) })
         }
         "n" => {
             let (bytes, desc) = noise_case(seed, num(1) as u64);
-            Some(Built { bytes, must_err: false, desc })
+            Some(Built { bytes, strict_prefix_of_valid: false, desc })
         }
         _ => None,
     }
@@ -911,7 +933,7 @@ impl C10 {
             cx.sample(|| json!({"case": key.replace(SEP, " "), "input": b.desc, "stream": render_bytes(&b.bytes, 160)}));
         }
         let d = &b.desc;
-        judge(key, &b.bytes, b.must_err, &|| d.clone(), cx);
+        judge(key, &b.bytes, &|| d.clone(), cx);
     }
     fn run_key(&self, key: &str, cx: &mut Cx) {
         match build(key, cx.seed) {
@@ -956,7 +978,7 @@ impl C10 {
                 cx.stats.executions += 1;
                 cx.stats.transitions += seq.len() as u64;
                 cx.state(hash_bytes(&bytes), true);
-                judge(&key, &bytes, false, &|| format!("context {} + alphabet({mode}) records {:?} + tail {tail}", ctx.name, seq), cx);
+                judge(&key, &bytes, &|| format!("context {} + alphabet({mode}) records {:?} + tail {tail}", ctx.name, seq), cx);
             }
             if cx.expired() {
                 cx.cap("time");
@@ -984,7 +1006,7 @@ impl Driver for C10 {
                 t.pick("", &format!(", and every sequence of 3 records over the minimal alphabet ({} records)", alphabet(false).len())),
             ),
             assumptions: vec![
-                "a base counts as a valid stream when the independent reference decoder accepts it; only prefixes of such bases that end before the end of ENDLIB must be rejected".into(),
+                "'ends before its end-of-library record' is judged on every explored input: if following the record length fields from byte 0 never reaches a complete ENDLIB record (length < 4 or a record running past the end of the input stops the walk), Ok is a violation; every strict prefix of a valid base is in this class (checked)".into(),
                 "Ok on a damaged stream is allowed (the reader is lenient about record order); what is required of every Ok is write = Ok and read-back equality".into(),
             ],
             excluded: vec![
@@ -1074,8 +1096,11 @@ impl Driver for C10 {
                     let key = format!("t{SEP}{}{SEP}{n}", b.name);
                     let full = n == b.bytes.len();
                     if let Some(built) = build(&key, cx.seed) {
-                        if built.must_err {
+                        if built.strict_prefix_of_valid {
                             cx.tag("class:strict-prefix-of-valid");
+                            if framing_reaches_endlib(&built.bytes) {
+                                cx.machinery(format!("C10 oracle: prefix {key} of a valid base reaches ENDLIB"));
+                            }
                         }
                         self.run_built(&key, built, full, cx);
                     }
@@ -1172,14 +1197,14 @@ impl Driver for C10 {
     }
     fn render_case(&self, _tier: Tier, key: &str) -> Value {
         match build(key, crate::sandbox::seed()) {
-            Some(b) => json!({"case": key.replace(SEP, " "), "input": b.desc, "must_be_rejected": b.must_err, "stream": render_bytes(&b.bytes, 4000)}),
+            Some(b) => json!({"case": key.replace(SEP, " "), "input": b.desc, "must_be_rejected": !framing_reaches_endlib(&b.bytes), "stream": render_bytes(&b.bytes, 4000)}),
             None => json!({"case": key.replace(SEP, " ")}),
         }
     }
     fn guards(&self, tier: Tier, stats: &Stats, _distinct: u64) -> Result<(), String> {
         let mut tags = vec![
             "part:truncation", "part:single-fault", "part:sequences", "part:header-length", "part:header-types", "base:repository", "base:generated",
-            "base:valid-by-reference-decoder", "class:strict-prefix-of-valid",
+            "base:valid-by-reference-decoder", "class:strict-prefix-of-valid", "class:no-endlib-reachable",
         ];
         if tier.is_thorough() {
             tags.extend(["part:fault-pairs", "part:noise-supplement"]);
@@ -1191,4 +1216,18 @@ impl Driver for C10 {
 
 pub fn driver() -> Box<dyn Driver> {
     Box::new(C10)
+}
+
+#[cfg(test)]
+mod tests {
+    use super::*;
+    #[test]
+    fn report_bases() {
+        std::env::set_var("VERIF_ROOT", "/tmp/vw-gds");
+        for b in bases() {
+            let d = gs::decode(&b.bytes);
+            println!("{:70} bytes={:6} recs={:5} valid={:?} {}", b.name, b.bytes.len(), b.recs.len(), b.valid_len, d.err().unwrap_or_default());
+        }
+        println!("alphabet full={} min={} faults={} contexts={}", alphabet(true).len(), alphabet(false).len(), fault_table().len(), contexts().len());
+    }
 }
